@@ -6,6 +6,7 @@ import (
 	"crypto/sha256"
 	"crypto/x509"
 	"fmt"
+	"io"
 	"strings"
 	"testing"
 
@@ -619,6 +620,32 @@ func checkCase(c Case) error {
 	}
 	if err := appendRoute(c, img, cert); err != nil {
 		return err
+	}
+	if ok && verr == nil && refOK {
+		// a signature object is asked about a reader the caller has already read from (the header was looked at, the reader
+		// is reused): what it offers from here on is a proper tail of the hashed bytes, which nobody signed
+		if sigs, sgerr := bin.Signatures(); sgerr == nil {
+			for _, sg := range sigs {
+				a, aerr := authenticode.ParseAuthenticode(sg.Certificate)
+				if aerr != nil {
+					continue
+				}
+				whole := hashedStream(img)
+				if whole.Len() < 16 {
+					continue
+				}
+				if ok1, _ := a.Verify(cert, whole); !ok1 {
+					continue
+				}
+				k := 1 + int(img[len(img)/2])%(int(whole.Size())/2)
+				r := hashedStream(img)
+				r.Seek(int64(k), io.SeekStart)
+				hx.Class("signature_asked_about_a_reader_that_was_read_from_before")
+				if ok2, err2 := a.Verify(cert, r); ok2 && err2 == nil {
+					return fmt.Errorf("Authenticode.Verify reports success for a reader positioned %d bytes into the signed bytes: the %d bytes it has left are not what was signed", k, int(whole.Size())-k)
+				}
+			}
+		}
 	}
 	if ok && verr == nil {
 		hx.Class("lib_accepts/" + short)
